@@ -33,6 +33,10 @@ class Mk:
             self.assume(z3.Length(e) == n)
         return sym_bytes(e, n)
 
+    def bytearray(self, name='ba'):
+        from .sym import HByteArray
+        return HByteArray(self.bytes(name))
+
     def str(self, name='s'):
         return SStr(z3.Const(name, STR))
 
